@@ -40,6 +40,11 @@ ValidateCases ==
         VCase("full", 0, 0, <<It(0, 0, <<>>, 0, Rep(255, 8), U8(0)), It(0, 0, <<>>, 0, U8(2), U8(0))>>),
         VCase("full", 0, 0, <<It(0, 0, <<>>, 0, U8(0), Rep(255, 8)), It(0, 0, <<>>, 0, U8(0), U8(2)), Small>>)}
 
+\* totals spread over n items (the remainder goes to the last item): every combination of the three count limits
+Spread(total, n, i) == IF i < n THEN total \div n ELSE total - (n - 1) * (total \div n)
+GridCases == {VCase("full", 1, 1, [i \in 1..n |-> It(1, Spread(ti, n, i), [q \in 1..Spread(tx, n, i) |-> 1], Spread(te, n, i), U8(10), U8(10))])
+              : n \in (IF Thorough THEN {1, 2, 3, 16} ELSE {3}), ti \in {3072, 3073}, te \in {3072, 3073}, tx \in {128, 129}}
+
 \* ---- extract
 Blob(k) == CASE k = 0 -> <<>> [] k = 1 -> <<1, 2, 3>> [] k = 2 -> <<9, 9, 9, 9, 9>> [] k = 3 -> <<1, 2, 4>> [] k = 4 -> <<7>> [] OTHER -> Rep(k, 40)
 \* claimed: blob ids of the specs; actual: blob ids laid out in the data; dl[i]: declared length adjustment; tail: trailing bytes
@@ -55,8 +60,12 @@ ExtractCases ==
         ECase(<<2, 2>>, <<2>>, <<0, 0>>, <<>>), ECase(<<1, 4>>, <<1, 4, 4>>, <<0, 0>>, <<>>), ECase(<<4, 1>>, <<1, 4>>, <<0, 0>>, <<>>), ECase(<<0>>, <<4>>, <<0>>, <<>>),
         ECase(<<4>>, <<0>>, <<0>>, <<>>), ECase(<<1, 3>>, <<1, 1>>, <<0, 0>>, <<>>)}
 
+SeqsUpTo(ids, L) == UNION {[1..n -> ids] : n \in 0..L}
+ExtractEnum == LET ids == IF Thorough THEN {0, 1, 3, 4} ELSE {0, 1, 4}
+               IN {ECase(cl, ac, Z(Len(cl)), <<>>) : cl \in SeqsUpTo(ids, 2), ac \in SeqsUpTo(ids, 2)}
+
 \* ---- paged proofs
-PagedCounts == IF Thorough THEN {0, 1, 2, 3, 31, 63, 64, 65, 66, 96, 100, 127, 128, 129, 130, 191, 192, 193, 200}
+PagedCounts == IF Thorough THEN (0..140) \cup {191, 192, 193, 200}
                ELSE {0, 1, 2, 63, 64, 65, 100, 127, 128, 129}
 PagedCase(n, k) == LET segs == [i \in 1..n |-> IF (i + k) % 5 = 0 THEN ZeroSegment ELSE Segment(<<i % 256, i \div 256, k + 1>>)]
                    IN [kind |-> "paged", segs |-> segs, want_pages |-> PagedProofs(segs)]
@@ -127,10 +136,10 @@ ProcessCases ==
     PCase(11, <<IS(<<>>, <<>>, 1), IS(<<Im(2, 9), Im(3, 9)>>, <<5>>, 0), IS(<<>>, <<>>, 2)>>, <<"ok", "ok", "ok">>, D3, E5, "") }
   \cup (IF Thorough THEN
           {PCase(20 + k, <<IS(<<Im(1 + (k % 3), k), Im(104, 1)>>, <<k % 5, 2>>, 1 + (k % 2)), IS(<<Im(1 + ((k + 1) % 3), 0)>>, <<>>, k % 3)>>,
-                 <<IF k % 4 = 0 THEN "err_exact" ELSE "ok", IF k % 5 = 0 THEN "ok_more" ELSE "ok">>, IF k % 2 = 0 THEN D3 ELSE D8, E9, "") : k \in 0..23}
+                 <<IF k % 4 = 0 THEN "err_exact" ELSE "ok", IF k % 5 = 0 THEN "ok_more" ELSE "ok">>, IF k % 2 = 0 THEN D3 ELSE D8, E9, "") : k \in 0..47}
         ELSE {})
 
-Cases == SetToSeq(ValidateCases) \o SetToSeq(ExtractCases) \o SetToSeq(PagedCases) \o SetToSeq(ProcessCases)
+Cases == SetToSeq(ValidateCases \cup GridCases) \o SetToSeq(ExtractCases \cup ExtractEnum) \o SetToSeq(PagedCases) \o SetToSeq(ProcessCases)
 ASSUME ndJsonSerialize(OutFile, Cases)
 GenInit == x = 0
 GenNext == FALSE /\ x' = x
